@@ -688,7 +688,7 @@ def check_copy(rep, backend, p, st, recs, s):
     inp = os.path.join(s.src, st['src'][4:]) if st['src'].startswith('src:') else os.path.join(s.build, st['src'])
     rep.case('sys:%s:copy:%r' % (backend, st), st['mode'] == 'symlink')
     rep.count('system:copy_file mode=%s input %s' % (st['mode'], 'source tree' if st['src'].startswith('src:') else 'generated'))
-    # open finding make-symlink-input-double-quoted: the class applies when the tool receives exactly the words sh makes of
+    # finding make-symlink-input-double-quoted (repaired by c50ae92; the class no longer suppresses anything): the class applies when the tool receives exactly the words sh makes of
     # the intended word between two empty pairs of quotes
     known = ()
     if backend == 'make' and st['mode'] == 'symlink' and len(hit) == 1:
@@ -731,7 +731,7 @@ def check_copy(rep, backend, p, st, recs, s):
 
 def symlink_explains(make_argv, declared_argv, subs):
     """make_argv is the symbolic-link copy declared_argv (ln -sf <target> <link>, both in the canonical spelling of `subs`) with
-    the target the way the open finding make-symlink-input-double-quoted predicts - and that changes something"""
+    the target the way the finding make-symlink-input-double-quoted (repaired by c50ae92; the class no longer suppresses anything) predicts - and that changes something"""
     a, b = tuple(make_argv), tuple(declared_argv)
     if a == b or a[:2] != ('ln', '-sf') or b[:2] != ('ln', '-sf') or len(b) != 4 or a[-1] != b[-1]:
         return False
@@ -743,7 +743,7 @@ def symlink_explains(make_argv, declared_argv, subs):
 
 
 def symlink_double_quote_predict(word):
-    """Open finding make-symlink-input-double-quoted: the Make recipe of a symbolic-link copy is `$(SYMLINK) '$1' '$@'` and the
+    """Finding make-symlink-input-double-quoted (repaired by c50ae92; a fixed entry suppresses nothing): the Make recipe of a symbolic-link copy is `$(SYMLINK) '$1' '$@'` and the
     call hands over $1 ALREADY shell-quoted whenever the word needs quoting (always for $(srcdir)/...), so sh reads
     ''word'' - the word unquoted between two empty strings. Returns the words the real sh makes of that (None when it
     cannot be predicted: a quote inside the word, sh fails)."""
